@@ -1,7 +1,7 @@
 (* Properties_C08.v — C08: updown topranking bins, ranks and limits neighbours exactly as specified. *)
 From Coq Require Import List Arith Lia Bool.
 From Coq Require Import Floats.SpecFloat.
-From GF Require Import Base Alphabet SymbolsDef SnpsProofs TopK Balance TopRankModel WhichWayProofs PushProofs BinsProofs.
+From GF Require Import Base Alphabet SymbolsDef SnpsProofs TopK Balance TopRankModel WhichWayProofs PushProofs BinsProofs TopRankSpec.
 Import ListNotations.
 
 (* the pairwise classification: whichWay, computed from the two updown-list rows (SNP texts, SNP positions, ambiguity
@@ -93,3 +93,14 @@ Theorem C08_check_args_four_bins : forall st su sd ss sm da du dd ds dp sizes di
   check_args_tr st su sd ss sm da du dd ds dp = Some (sizes, dists) -> length sizes = 4 /\ length dists = 4.
 Proof. exact check_args_sizes_length. Qed.
 Print Assumptions C08_check_args_four_bins.
+
+(* the stages composed: for rows derived from FASTA sequences of the reference's width, the core of the command (every
+   target classified against every query, thresholds and --ignore, the two binning modes, both writers) equals the
+   specification command spec_core: column-wise classification and distance (spec_which_way), size-mode bins = first K
+   of the stably sorted candidates then the balanced allocation, --dist-push bins = the candidates at the k smallest
+   occurring distances; any numbers of queries and targets, any option set *)
+Theorem C08_core_eq_spec : forall o ref qs ts, all_valid ref -> Forall (fun c => resolved c = true) ref ->
+  Forall (seq_ok ref) qs -> Forall (seq_ok ref) ts ->
+  topranking_core o (map (udl_of ref) qs) (map (udl_of ref) ts) = spec_core o ref qs ts.
+Proof. exact core_eq_spec. Qed.
+Print Assumptions C08_core_eq_spec.
